@@ -265,7 +265,7 @@ PROPS['C01'] = {
         'the clause loop rewinds the id counter only after the head of the clause just fetched has failed to unify (#ids_released_only_after_failed_unification). That ids given back are then referenced by nothing is PROVED since 8.36 (C10, unit solver_ids: the id invariant of the search)',
         'PROVED since 8.39 (unit solver_kb, overlay contracts contracts/*+kbx.vc): the clause loop asks the knowledge base only for clauses that are there - every node of a complex goal is given the number of clauses of its predicate '
         '(count_rules: that number, or 0 while a query is being stopped; proved in unit rename), Goal::key and Unifiable::key build the same key (both proved against one wrapped format string), so at get_rule the predicate exists and the index is below the number of its clauses '
-        '(#pre_exists, #pre_index PROVED at the call site; #clause_is_there). Trusted for this (T2): a HashMap look-up with a &str key depends on the text of the key only, a key has one value, a key with a value is in the map (axiom_kb_lookup, axiom_kb_one_value)',
+        '(#pre_exists, #pre_index PROVED at the call site; #clause_is_there); and a call that reports no (more) answer without a cut has gone through the clauses of its predicate to the end - the number its node was given is 0 or exactly the number of clauses stored (#every_clause_tried: no clause is skipped). Trusted for this (T2): a HashMap look-up with a &str key depends on the text of the key only, a key has one value, a key with a value is in the map (axiom_kb_lookup, axiom_kb_one_value)',
         'PROVED since 8.38 (unit solver_ext: overlay contracts contracts/*+ext.vc on the verbatim bodies of next_solution, next_solution_and / _or / _bip and the node constructors; solve / solve_all in unit solutions_ids): NO BINDING IS EVER LOST in the search - '
         'every answer a node gives extends the bindings the node was made with (#answer_extends), the bindings of the nodes it is linked to (clause body, first operand, remaining operands) extend its own (heap_ext; #ext_kept, #ext_inv), and the bindings a node was made with never change (#bindings_fixed); '
         'this rests on unify\'s #keeps (unit unify) and on the built-in predicates keeping the bindings they are given (#keeps_bindings, proved for all ten in units compare, listops, append). With C06\'s soundness of unify this is the soundness half of the equivalence at the level of bindings: an answer contains, unchanged, every binding made on the way to it',
